@@ -9,13 +9,14 @@ import (
 	"encoding/json"
 	"flag"
 	"fmt"
+	"go/types"
 	"os"
 	"os/exec"
-	"sort"
-	"sync"
 	"regexp"
+	"sort"
 	"strconv"
 	"strings"
+	"sync"
 	"time"
 
 	"golang.org/x/tools/go/ssa"
@@ -57,6 +58,25 @@ func main() {
 				cn.Locals = append(cn.Locals, a.Comment)
 			}
 			out[ir.ShortName(fn)] = cn
+		}
+		// field names of the repository's named struct types (key "type:<pkg>.<Type>", names in Params)
+		for rel, pk := range p.ByRel {
+			sc := pk.Types.Scope()
+			for _, nm := range sc.Names() {
+				tn, ok := sc.Lookup(nm).(*types.TypeName)
+				if !ok {
+					continue
+				}
+				st, ok := tn.Type().Underlying().(*types.Struct)
+				if !ok || st.NumFields() == 0 {
+					continue
+				}
+				var cn ir.CanonNames
+				for i := 0; i < st.NumFields(); i++ {
+					cn.Params = append(cn.Params, st.Field(i).Name())
+				}
+				out["type:"+rel+"."+nm] = cn
+			}
 		}
 		b, _ := json.MarshalIndent(out, "", " ")
 		fmt.Println(string(b))
